@@ -3,6 +3,9 @@
 //   failmsg <script.tsv> <log.ndjson>
 // script lines: kind<TAB>expected-hex<TAB>actual-hex   ("-" = NULL pointer, "" = empty) ; `reset` is echoed
 // kinds: streq | nocase | checkeq | bineq
+//   bitseq<TAB>expected<TAB>actual<TAB>mask<TAB>width   BitsEqualFailure; the three operands are 16 hex digits (the 8 bytes of an
+//       unsigned long, most significant first), width = the byte count BITS_EQUAL passes (sizeof(actual), 1..8).  Logged: the two
+//       operand fields of the message as symbol sequences (0, 1, 2 = any other character; blanks dropped).
 #include "vh.h"
 #include "CppUTest/TestHarness.h"
 #include "CppUTest/TestFailure.h"
@@ -32,6 +35,38 @@ static bool all_printable(const std::string& s)
     return true;
 }
 
+static std::string bytes_json(const std::string& s)
+{
+    std::string o = "["; char b[16];
+    for (size_t i = 0; i < s.size(); i++) { snprintf(b, sizeof b, "%s%d", i ? "," : "", (int) (unsigned char) s[i]); o += b; }
+    return o + "]";
+}
+static unsigned long value_of(const std::string& s)
+{
+    unsigned long v = 0;
+    for (size_t i = 0; i < s.size(); i++) v = (v << 8) | (unsigned char) s[i];
+    return v;
+}
+// the text between '<' and '>' that follows `label` in msg, as symbols; found=false when there is no such field
+static std::string field_symbols(const std::string& msg, const char* label, bool& found)
+{
+    found = false;
+    size_t p = msg.find(label);
+    if (p == std::string::npos) return "[]";
+    size_t b = msg.find('<', p);
+    if (b == std::string::npos) return "[]";
+    size_t e = msg.find('>', b);
+    if (e == std::string::npos) return "[]";
+    found = true;
+    std::string o = "["; bool first = true;
+    for (size_t i = b + 1; i < e; i++) {
+        if (msg[i] == ' ') continue;
+        o += first ? "" : ","; first = false;
+        o += msg[i] == '0' ? "0" : (msg[i] == '1' ? "1" : "2");
+    }
+    return o + "]";
+}
+
 class ProbeShell : public UtestShell
 {
 public:
@@ -54,6 +89,22 @@ int main(int argc, char** argv)
         while (f.size() < 3) f.push_back("");
         const std::string kind = f[0];
         if (kind == "reset") { fprintf(out, "{\"op\":\"reset\"}\n"); continue; }
+        if (kind == "bitseq") {
+            while (f.size() < 5) f.push_back("");
+            std::string e = vh_unhex(f[1]), a = vh_unhex(f[2]), m = vh_unhex(f[3]);
+            size_t w = (size_t) atol(f[4].c_str());
+            if (e.size() != 8 || a.size() != 8 || m.size() != 8 || sizeof(unsigned long) != 8) { fprintf(out, "{\"op\":\"harness-error\",\"what\":\"bitseq operands must be 8 bytes\"}\n"); break; }
+            BitsEqualFailure fl(&shell, "file.cpp", 2, value_of(e), value_of(a), value_of(m), w, "");
+            std::string msg = fl.getMessage().asCharString();
+            bool has_e = false, has_a = false;
+            std::string eb = field_symbols(msg, "expected", has_e);
+            size_t bw = msg.find("but was");
+            std::string ab = field_symbols(bw == std::string::npos ? std::string() : msg.substr(bw), "but was", has_a);
+            fprintf(out, "{\"op\":\"bitseq\",\"w\":%lu,\"e\":%s,\"a\":%s,\"m\":%s,\"has_e\":%s,\"has_a\":%s,\"eb\":%s,\"ab\":%s,\"msglen\":%lu}\n",
+                    (unsigned long) w, bytes_json(e).c_str(), bytes_json(a).c_str(), bytes_json(m).c_str(), has_e ? "true" : "false", has_a ? "true" : "false",
+                    eb.c_str(), ab.c_str(), (unsigned long) msg.size());
+            continue;
+        }
         bool enull = f[1] == "-", anull = f[2] == "-";
         std::string e = enull ? "" : vh_unhex(f[1]), a = anull ? "" : vh_unhex(f[2]);
         char* ce = enull ? NULL : exact_cstr(e);
